@@ -1,6 +1,6 @@
 (* ApiPow.v — correspondence entry points for C08.  Definitions only. *)
 From Coq Require Import ZArith List Bool.
-From Mpir Require Import Word MpzDefs DivDefs GcdDefs PowDefs ApiBasic ApiDiv.
+From Mpir Require Import Word MpzDefs DivDefs GcdDefs PowDefs ApiBasic ApiDiv PowmWDefs.
 Import ListNotations.
 Local Open Scope Z_scope.
 
@@ -30,3 +30,17 @@ Definition api_powmcheck : api := fun a =>
   let ok := (0 <=? r) && (r <? m) && coprime_all 1 fs
             && forallb (fun f => match mpz_powm b e f with Ok x => r mod f =? x | DivByZero => false end) fs in
   [TZ (b2z ok)].
+
+(* ---- mpn/generic/powm.c and mpz/powm.c AS CODED (PowmWDefs.v: win_size, getbits across limb boundaries, the table of odd powers in
+   Montgomery form, the zero-skipping / window loop, the final canonical reduction; the wrapper with its e = 0, e = 1, negative
+   exponent, negative base and even-modulus paths) ----
+   mpn_powm B E M : B any limbs (bn = its limb count), E > 1, M odd of n limbs: the n result limbs as a value
+   mpz_powm_c B E M alias : the same call as mpz_powm, the model being the as-coded wrapper (value, then the size field) *)
+Definition api_mpn_powm : api := fun a =>
+  let bl := limbs_of_Z (argz a 0) in let el := limbs_of_Z (argz a 1) in let ml := limbs_of_Z (argz a 2) in
+  match mpn_powm_c bl el ml with [] => [TZ (-1)] | r => [TZ (Limbs.eval r)] end.
+Definition api_mpz_powm_c : api := fun a =>
+  match mpz_powm_c (mpz_of_Z (argz a 0)) (mpz_of_Z (argz a 1)) (mpz_of_Z (argz a 2)) with
+  | Ok z => [TZ (value z); TZ (sz z)]
+  | DivByZero => dz
+  end.
